@@ -110,7 +110,15 @@ func RunClones(c *core.Ctx) {
 			w.mutate(w.a)
 		}
 		var cp ad.Vector
-		switch t.Choose(6) {
+		switch t.Choose(8) {
+		case 6:
+			w.how = "AsDenseMagicVector"
+			w.e2 = elemTypes[[]int{1, 3}[t.Choose(2)]]
+			w.guard(w.how, func() { cp = ad.AsDenseMagicVector(w.e2.t, w.a.v).(ad.Vector) })
+		case 7:
+			w.how = "AsSparseMagicVector"
+			w.e2 = elemTypes[[]int{1, 3}[t.Choose(2)]]
+			w.guard(w.how, func() { cp = ad.AsSparseMagicVector(w.e2.t, w.a.v).(ad.Vector) })
 		case 0:
 			w.how = "CloneVector"
 			w.guard(w.how, func() { cp = w.a.v.CloneVector() })
@@ -178,7 +186,15 @@ func RunClones(c *core.Ctx) {
 			w.mutate(w.a)
 		}
 		var cp ad.Matrix
-		switch t.Choose(5) {
+		switch t.Choose(7) {
+		case 5:
+			w.how = "AsDenseMagicMatrix"
+			w.e2 = elemTypes[[]int{1, 3}[t.Choose(2)]]
+			w.guard(w.how, func() { cp = ad.AsDenseMagicMatrix(w.e2.t, w.a.m).(ad.Matrix) })
+		case 6:
+			w.how = "AsSparseMagicMatrix"
+			w.e2 = elemTypes[[]int{1, 3}[t.Choose(2)]]
+			w.guard(w.how, func() { cp = ad.AsSparseMagicMatrix(w.e2.t, w.a.m).(ad.Matrix) })
 		case 0:
 			w.how = "CloneMatrix"
 			w.guard(w.how, func() { cp = w.a.m.CloneMatrix() })
